@@ -159,3 +159,46 @@ theorem wrapIter_eq_runtime {R A B : Type} (next : R → Option (A × R)) (conv 
     | some p => obtain ⟨a, r'⟩ := p; simp only [List.map_cons]; rw [← ih r' a]; rfl
 
 end GoCo.Iters
+
+namespace GoCo.Iters
+
+/-- with fuel ≥ the number of bytes left, more fuel changes nothing -/
+theorem rangeStrFrom_mono (bs : List Nat) :
+    ∀ (fuel off extra : Nat), bs.length ≤ fuel → rangeStrFrom (fuel + extra) bs off = rangeStrFrom fuel bs off := by
+  intro fuel
+  induction fuel generalizing bs with
+  | zero =>
+    intro off extra h
+    have : bs = [] := List.length_eq_zero_iff.mp (by omega)
+    subst this
+    simp [rangeStrFrom_nil]
+  | succ fuel ih =>
+    intro off extra h
+    cases bs with
+    | nil => simp [rangeStrFrom_nil]
+    | cons b rest =>
+      have e : fuel + 1 + extra = (fuel + extra) + 1 := by omega
+      rw [e]
+      simp only [rangeStrFrom]
+      congr 1
+      apply ih
+      have := decodeRune_width_pos (b :: rest)
+      simp only [List.length_drop, List.length_cons] at h ⊢
+      omega
+
+theorem rangeStrFrom_fuel (bs : List Nat) : rangeStrFrom (bs.length + 1) bs 0 = rangeStrFrom bs.length bs 0 :=
+  rangeStrFrom_mono bs bs.length 0 1 (Nat.le_refl _)
+
+theorem rangeStrFrom_length_le : ∀ (fuel : Nat) (bs : List Nat) (off : Nat), (rangeStrFrom fuel bs off).length ≤ fuel := by
+  intro fuel
+  induction fuel with
+  | zero => intro bs off; simp [rangeStrFrom]
+  | succ fuel ih =>
+    intro bs off
+    cases bs with
+    | nil => simp [rangeStrFrom]
+    | cons b rest => simp only [rangeStrFrom, List.length_cons]; have := ih ((b :: rest).drop (decodeRune (b :: rest)).2) (off + (decodeRune (b :: rest)).2); omega
+
+theorem rangeStr_length_le (bs : List Nat) : (rangeStr bs).length ≤ bs.length := rangeStrFrom_length_le _ _ _
+
+end GoCo.Iters
